@@ -2,3 +2,419 @@
 From Coq Require Import List Bool Arith ZArith Lia.
 Import ListNotations.
 Require Import Nib.C11.Model Nib.C11.Spec.
+
+(* ------------------------------------------------------------------ machine arithmetic *)
+
+Section Arith.
+Open Scope Z_scope.
+
+Lemma two63_lt_two64 : two63 < two64. Proof. unfold two63, two64. lia. Qed.
+
+Lemma to_u64_small h : 0 <= h < two63 -> to_u64 h = h.
+Proof. intro R. unfold to_u64. apply Z.mod_small. pose proof two63_lt_two64. lia. Qed.
+
+(** the reveal-window test of the code is the plain integer statement, for heights that fit int64 *)
+Lemma period_ok_spec vp h sb :
+  0 < vp -> 0 <= h < two63 -> 0 <= sb < two63 ->
+  (period_ok vp h sb = true <-> h / vp - sb / vp = 1).
+Proof.
+  intros V Rh Rs. unfold period_ok. rewrite (to_u64_small h Rh). rewrite Z.eqb_eq.
+  assert (A : 0 <= h / vp < two63).
+  { split; [apply Z.div_pos; lia|]. apply Z.le_lt_trans with h; [|lia]. apply Z.div_le_upper_bound; nia. }
+  assert (B : 0 <= sb / vp < two63).
+  { split; [apply Z.div_pos; lia|]. apply Z.le_lt_trans with sb; [|lia]. apply Z.div_le_upper_bound; nia. }
+  set (a := h / vp) in *. set (b := sb / vp) in *. unfold u64sub.
+  pose proof two63_lt_two64 as L. assert (T : two64 = 2 * two63) by (unfold two64, two63; lia).
+  split; intro E.
+  - destruct (Z_lt_ge_dec (a - b) 0) as [N|N].
+    + assert (M : (a - b) mod two64 = a - b + two64).
+      { symmetry. apply Z.mod_unique with (-1); lia. }
+      rewrite M in E. lia.
+    + rewrite Z.mod_small in E; lia.
+  - rewrite E. apply Z.mod_small. lia.
+Qed.
+
+Lemma is_period_last_spec vp h :
+  0 <= h < two63 -> (is_period_last vp h = true <-> (h + 1) mod vp = 0).
+Proof.
+  intros Rh. unfold is_period_last, u64add. rewrite (to_u64_small h Rh). rewrite Z.eqb_eq.
+  pose proof two63_lt_two64. assert (T : two64 = 2 * two63) by (unfold two64, two63; lia).
+  rewrite (Z.mod_small (h + 1)); [tauto|lia].
+Qed.
+
+Lemma stale_spec vp h sb :
+  0 <= sb -> 0 <= vp -> sb + vp < two63 -> (stale vp h sb = true <-> sb + vp <= h).
+Proof.
+  intros Rs V R. unfold stale, u64add, to_i64. pose proof two63_lt_two64.
+  rewrite Z.mod_small by lia.
+  destruct (Z.ltb_spec (sb + vp) two63); [|lia]. apply Z.leb_le.
+Qed.
+
+(** a prevote submitted in period [p] is not stale at the last block of period [p] … *)
+Lemma not_stale_at_end_of_own_period vp sb :
+  0 < vp -> 0 <= sb -> sb + vp < two63 ->
+  stale vp ((sb / vp + 1) * vp - 1) sb = false.
+Proof.
+  intros V Rs R. apply not_true_iff_false. rewrite stale_spec by lia.
+  pose proof (Z.mod_pos_bound sb vp V). pose proof (Z.div_mod sb vp). nia.
+Qed.
+
+(** … and is stale at the last block of period [p+1] (and at any later height) *)
+Lemma stale_from_end_of_next_period vp sb h :
+  0 < vp -> 0 <= sb -> sb + vp < two63 ->
+  (sb / vp + 2) * vp - 1 <= h -> stale vp h sb = true.
+Proof.
+  intros V Rs R L. rewrite stale_spec by lia.
+  pose proof (Z.mod_pos_bound sb vp V). pose proof (Z.div_mod sb vp). nia.
+Qed.
+
+(** the reveal window [period_ok] is exactly "current height lies in period p+1" *)
+Lemma period_ok_window vp h sb :
+  0 < vp -> 0 <= h < two63 -> 0 <= sb < two63 ->
+  (period_ok vp h sb = true <-> (sb / vp + 1) * vp <= h < (sb / vp + 2) * vp).
+Proof.
+  intros V Rh Rs. rewrite period_ok_spec by assumption.
+  pose proof (Z.mod_pos_bound h vp V). pose proof (Z.div_mod h vp).
+  split; intro E.
+  - assert (h / vp = sb / vp + 1) by lia. nia.
+  - assert (h / vp = sb / vp + 1); [|lia].
+    symmetry. apply Z.div_unique with (h - (sb / vp + 1) * vp); lia.
+Qed.
+
+End Arith.
+
+(* ------------------------------------------------------------------ one step *)
+
+Lemma is_nil_true {A} (l : list A) : is_nil l = true <-> l = [].
+Proof. destruct l; simpl; split; congruence. Qed.
+
+Lemma app_nil_iff {A} (a b : list A) : a ++ b = [] <-> a = [] /\ b = [].
+Proof. split; [apply app_eq_nil|intros [-> ->]; reflexivity]. Qed.
+
+Lemma if_nil_iff {A} (c : bool) (x : A) : (if c then [] else [x]) = [] <-> c = true.
+Proof. destruct c; split; congruence. Qed.
+
+Lemma auth_reasons_nil s f v :
+  auth_reasons s f v = [] <-> feeder_ok s f v = true /\ status s v = Bonded.
+Proof.
+  unfold auth_reasons, bonded. rewrite app_nil_iff, !if_nil_iff.
+  destruct (status s v); intuition congruence.
+Qed.
+
+Lemma vote_reasons_nil H s h f v salt rates parses wl :
+  vote_reasons H s h f v salt rates parses wl = [] <->
+  feeder_ok s f v = true /\ status s v = Bonded /\
+  (exists p, prevotes s v = Some p /\ period_ok (vp s) h (p_submit p) = true /\
+             p_hash p = H salt rates v) /\
+  parses = true /\ wl = true.
+Proof.
+  unfold vote_reasons. rewrite !app_nil_iff, auth_reasons_nil.
+  destruct (prevotes s v) as [p|].
+  - rewrite app_nil_iff, !if_nil_iff, Nat.eqb_eq.
+    split.
+    + intros [[F B] [[Pd Hh] [Pa W]]]. destruct parses; [|discriminate]. destruct wl; [|discriminate].
+      repeat split; auto. exists p; auto.
+    + intros [F [B [[q [Q [Pd Hh]]] [Pa W]]]]. inversion Q; subst q. subst. simpl. auto.
+  - split.
+    + intros [_ [C _]]. discriminate.
+    + intros [_ [_ [[q [Q _]] _]]]. discriminate.
+Qed.
+
+(** acceptance of a vote, exactly *)
+Lemma vote_accepted_iff H n s h f v salt rates tuples parses wl :
+  accepted (fst (step H n s h (Vote f v salt rates tuples parses wl))) = true <->
+  feeder_ok s f v = true /\ status s v = Bonded /\
+  (exists p, prevotes s v = Some p /\ period_ok (vp s) h (p_submit p) = true /\
+             p_hash p = H salt rates v) /\
+  parses = true /\ wl = true.
+Proof.
+  rewrite <- vote_reasons_nil. simpl.
+  destruct (vote_reasons H s h f v salt rates parses wl); simpl; split; congruence.
+Qed.
+
+Lemma prevote_accepted_iff H n s h f v hash hex_ok :
+  accepted (fst (step H n s h (Prevote f v hash hex_ok))) = true <->
+  feeder_ok s f v = true /\ status s v = Bonded /\ hex_ok = true.
+Proof.
+  assert (E : auth_reasons s f v ++ (if hex_ok then [] else [RBadHash]) = [] <->
+              feeder_ok s f v = true /\ status s v = Bonded /\ hex_ok = true).
+  { rewrite app_nil_iff, auth_reasons_nil, if_nil_iff. tauto. }
+  rewrite <- E. simpl.
+  destruct (auth_reasons s f v ++ (if hex_ok then [] else [RBadHash])); simpl; split; congruence.
+Qed.
+
+(** what an accepted vote does to the stores *)
+Lemma vote_effect H n s h f v salt rates tuples parses wl :
+  accepted (fst (step H n s h (Vote f v salt rates tuples parses wl))) = true ->
+  forall s', s' = snd (step H n s h (Vote f v salt rates tuples parses wl)) ->
+  prevotes s' v = None /\ votes s' v = Some tuples /\
+  (forall x, x <> v -> prevotes s' x = prevotes s x /\ votes s' x = votes s x) /\
+  feeders s' = feeders s /\ status s' = status s /\ vp s' = vp s.
+Proof.
+  simpl. destruct (vote_reasons H s h f v salt rates parses wl); simpl; [|discriminate].
+  intros _ s' ->. simpl. unfold upd. rewrite Nat.eqb_refl. repeat split; auto.
+  - apply Nat.eqb_neq in H0. rewrite H0. reflexivity.
+  - apply Nat.eqb_neq in H0. rewrite H0. reflexivity.
+Qed.
+
+Lemma prevote_effect H n s h f v hash hex_ok :
+  accepted (fst (step H n s h (Prevote f v hash hex_ok))) = true ->
+  forall s', s' = snd (step H n s h (Prevote f v hash hex_ok)) ->
+  prevotes s' v = Some {| p_hash := hash; p_submit := to_u64 h; p_origin := n |} /\
+  (forall x, x <> v -> prevotes s' x = prevotes s x) /\
+  votes s' = votes s /\ feeders s' = feeders s /\ status s' = status s /\ vp s' = vp s.
+Proof.
+  simpl. destruct (auth_reasons s f v ++ (if hex_ok then [] else [RBadHash])); simpl; [|discriminate].
+  intros _ s' ->. simpl. unfold upd. rewrite Nat.eqb_refl. repeat split; auto.
+  intros x N. apply Nat.eqb_neq in N. rewrite N. reflexivity.
+Qed.
+
+(** a refused message changes nothing *)
+Lemma rejected_no_change H n s h m :
+  accepted (fst (step H n s h m)) = false -> snd (step H n s h m) = s.
+Proof.
+  destruct m as [f v hash hex_ok|f v salt rates tuples parses wl|op d|sd nvp|v st| |]; simpl.
+  - destruct (is_nil _); simpl; congruence.
+  - destruct (is_nil _); simpl; congruence.
+  - destruct (status s op); simpl; congruence.
+  - destruct sd; simpl; congruence.
+  - discriminate.
+  - discriminate.
+  - reflexivity.
+Qed.
+
+(** only the prevote and vote handlers touch a validator's entries; only for that validator *)
+Definition signer_of (m : msg) : option (nat * nat) :=
+  match m with
+  | Prevote f v _ _ => Some (f, v)
+  | Vote f v _ _ _ _ _ => Some (f, v)
+  | _ => None
+  end.
+
+(** the signer of an accepted prevote / vote is the validator itself or its current delegate,
+    and the validator is bonded *)
+Lemma accepted_signer_authorised H n s h m f v :
+  signer_of m = Some (f, v) -> accepted (fst (step H n s h m)) = true ->
+  (f = v \/ feeders s v = Some f) /\ status s v = Bonded.
+Proof.
+  intros S A.
+  assert (X : feeder_ok s f v = true /\ status s v = Bonded).
+  { destruct m; simpl in S; try discriminate; inversion S; subst.
+    - apply prevote_accepted_iff in A. tauto.
+    - apply vote_accepted_iff in A. tauto. }
+  destruct X as [F B]. split; [|exact B].
+  unfold feeder_ok in F. apply orb_true_iff in F as [F|F].
+  - left. apply Nat.eqb_eq; assumption.
+  - right. destruct (feeders s v) as [d|]; [|discriminate]. apply Nat.eqb_eq in F. congruence.
+Qed.
+
+(** period end: all votes dropped, exactly the stale prevotes dropped *)
+Lemma endblock_effect H n s h :
+  let s' := snd (step H n s h EndBlock) in
+  feeders s' = feeders s /\ status s' = status s /\ vp s' = vp s /\
+  if is_period_last (vp s) h
+  then (forall v, votes s' v = None) /\
+       (forall v p, prevotes s' v = Some p <->
+                    prevotes s v = Some p /\ stale (vp s) h (p_submit p) = false)
+  else s' = s.
+Proof.
+  simpl. destruct (is_period_last (vp s) h); simpl; repeat split; auto.
+  - destruct (prevotes s v) as [q|] eqn:E; [|discriminate].
+    destruct (stale (vp s) h (p_submit q)) eqn:St; congruence.
+  - destruct (prevotes s v) as [q|] eqn:E; [|discriminate].
+    destruct (stale (vp s) h (p_submit q)) eqn:St; [discriminate|]. congruence.
+  - intros [E St]. rewrite E, St. reflexivity.
+Qed.
+
+Arguments step : simpl never.
+
+(* ------------------------------------------------------------------ histories: ghost origins *)
+
+(** where a stored prevote entry can come from *)
+Lemma step_prevotes H n s h m x p :
+  prevotes (snd (step H n s h m)) x = Some p ->
+  prevotes s x = Some p \/
+  exists f hash hex_ok, m = Prevote f x hash hex_ok /\
+                        p = {| p_hash := hash; p_submit := to_u64 h; p_origin := n |}.
+Proof.
+  destruct m as [f v hash hex_ok|f v salt rates tuples parses wl|op d|sd nvp|v st| |]; unfold step; simpl.
+  - destruct (is_nil _); simpl; auto. unfold upd.
+    destruct (Nat.eqb_spec x v) as [->|N]; auto.
+    intro E. inversion E. right. eauto.
+  - destruct (is_nil _); simpl; auto. unfold upd.
+    destruct (Nat.eqb_spec x v) as [->|N]; auto. discriminate.
+  - destruct (status s op); simpl; auto.
+  - destruct sd; simpl; auto. destruct (nvp =? 0)%Z; simpl; auto.
+  - auto.
+  - destruct (is_period_last (vp s) h); simpl; auto.
+    destruct (prevotes s x) as [q|]; [|discriminate].
+    destruct (stale (vp s) h (p_submit q)); [discriminate|auto].
+  - auto.
+Qed.
+
+Definition stored_origin (s : state) (o : nat) : Prop :=
+  exists v p, prevotes s v = Some p /\ p_origin p = o.
+
+(** origins of stored entries are positions already handled, and distinct entries have distinct origins *)
+Definition fresh (n : nat) (s : state) : Prop :=
+  (forall v p, prevotes s v = Some p -> p_origin p < n) /\
+  (forall v w p q, prevotes s v = Some p -> prevotes s w = Some q -> p_origin p = p_origin q -> v = w).
+
+Lemma fresh_step H n s h m : fresh n s -> fresh (S n) (snd (step H n s h m)).
+Proof.
+  intros [F1 F2]. split.
+  - intros v p E. apply step_prevotes in E as [E|(f & hash & hex & _ & ->)].
+    + specialize (F1 _ _ E). lia.
+    + simpl. lia.
+  - intros v w p q E1 E2 O.
+    apply step_prevotes in E1 as [E1|(f1 & hash1 & hex1 & M1 & ->)];
+    apply step_prevotes in E2 as [E2|(f2 & hash2 & hex2 & M2 & ->)].
+    + eauto.
+    + specialize (F1 _ _ E1). simpl in O. lia.
+    + specialize (F1 _ _ E2). simpl in O. lia.
+    + rewrite M1 in M2. inversion M2. reflexivity.
+Qed.
+
+Lemma consume_at_spec H n s h m j o :
+  In (j, o) (consume_at H n s h m) ->
+  j = n /\ exists f v salt rates tuples parses wl p,
+    m = Vote f v salt rates tuples parses wl /\
+    accepted (fst (step H n s h m)) = true /\ prevotes s v = Some p /\ p_origin p = o.
+Proof.
+  destruct m as [f v hash hex_ok|f v salt rates tuples parses wl|op d|sd nvp|v st| |];
+    try (simpl; tauto).
+  unfold consume_at.
+  destruct (accepted (fst (step H n s h (Vote f v salt rates tuples parses wl)))) eqn:A; [|simpl; tauto].
+  destruct (prevotes s v) as [p|] eqn:E; [|simpl; tauto].
+  intros [X|[]]. inversion X; subst. split; auto.
+  exists f, v, salt, rates, tuples, parses, wl, p. auto.
+Qed.
+
+Lemma consumed_origin_bound H evs : forall n s j o,
+  In (j, o) (consumed H n s evs) -> n <= o \/ stored_origin s o.
+Proof.
+  induction evs as [|[h m] r IH]; intros n s j o I; simpl in I; [tauto|].
+  apply in_app_or in I as [I|I].
+  - apply consume_at_spec in I as [_ (f & v & salt & rates & t & pa & wl & p & _ & _ & E & O)].
+    right. exists v, p. auto.
+  - apply IH in I as [L|(v & p & E & O)]; [left; lia|].
+    apply step_prevotes in E as [E|(f & hash & hex & _ & ->)].
+    + right. exists v, p. auto.
+    + left. simpl in O. lia.
+Qed.
+
+(** each stored prevote entry backs at most one accepted vote *)
+Lemma consumed_origins_nodup H evs : forall n s,
+  fresh n s -> NoDup (map snd (consumed H n s evs)).
+Proof.
+  induction evs as [|[h m] r IH]; intros n s F; simpl; [constructor|].
+  rewrite map_app.
+  pose proof (fresh_step H n s h m F) as F'.
+  specialize (IH _ _ F').
+  destruct (consume_at H n s h m) as [|[j o] [|? ?]] eqn:C; simpl; auto.
+  - constructor; auto.
+    assert (I : In (j, o) (consume_at H n s h m)) by (rewrite C; left; reflexivity).
+    apply consume_at_spec in I as [-> (f & v & salt & rates & t & pa & wl & p & -> & A & E & O)].
+    intro I. apply in_map_iff in I as [[j' o'] [X I]]. simpl in X. subst o'.
+    apply consumed_origin_bound in I as [L|(x & q & E' & O')].
+    + destruct F as [F1 _]. specialize (F1 _ _ E). lia.
+    + pose proof (vote_effect H n s h f v salt rates t pa wl A _ eq_refl) as (N & _ & K & _).
+      destruct (Nat.eq_dec x v) as [->|D].
+      * rewrite N in E'. discriminate.
+      * destruct (K x D) as [K1 _]. rewrite K1 in E'.
+        destruct F as [_ F2]. apply D. apply (F2 x v q p); auto. congruence.
+  - exfalso. unfold consume_at in C.
+    destruct m; try discriminate.
+    destruct (accepted _); [|discriminate]. destruct (prevotes s val); discriminate.
+Qed.
+
+(* ------------------------------------------------------------------ histories: commit-reveal *)
+
+Lemma final_app H a : forall n s b,
+  final H n s (a ++ b) = final H (n + length a) (final H n s a) b.
+Proof.
+  induction a as [|[h m] a IH]; intros n s b; simpl.
+  - rewrite Nat.add_0_r. reflexivity.
+  - rewrite IH. f_equal. lia.
+Qed.
+
+(** every stored entry was written by the Prevote message at its origin position, for that
+    validator, with that hash, at that height *)
+Definition linked (all : list event) (n : nat) (s : state) : Prop :=
+  forall v p, prevotes s v = Some p ->
+    p_origin p < n /\
+    exists hk f hex_ok, nth_error all (p_origin p) = Some (hk, Prevote f v (p_hash p) hex_ok) /\
+                        p_submit p = to_u64 hk.
+
+Lemma linked_step H all n s h m :
+  nth_error all n = Some (h, m) -> linked all n s -> linked all (S n) (snd (step H n s h m)).
+Proof.
+  intros N L v p E. apply step_prevotes in E as [E|(f & hash & hex & -> & ->)].
+  - destruct (L _ _ E) as [B X]. split; [lia|exact X].
+  - simpl. split; [lia|]. exists h, f, hex. auto.
+Qed.
+
+Definition backed (H : nat -> nat -> nat -> nat) (s0 : state) (all : list event) (j o : nat) : Prop :=
+  exists hj f v salt rates tuples hk f' hex_ok,
+    nth_error all j = Some (hj, Vote f v salt rates tuples true true) /\
+    nth_error all o = Some (hk, Prevote f' v (H salt rates v) hex_ok) /\
+    o < j /\
+    period_ok (vp (state_before H s0 all j)) hj (to_u64 hk) = true.
+
+Lemma backed_aux H s0 all : forall evs pre s,
+  all = pre ++ evs -> s = final H 0 s0 pre -> linked all (length pre) s ->
+  forall j o, In (j, o) (consumed H (length pre) s evs) -> backed H s0 all j o.
+Proof.
+  induction evs as [|[h m] r IH]; intros pre s A S L j o I; simpl in I; [tauto|].
+  assert (N : nth_error all (length pre) = Some (h, m)).
+  { rewrite A. rewrite nth_error_app2 by lia. rewrite Nat.sub_diag. reflexivity. }
+  apply in_app_or in I as [I|I].
+  - apply consume_at_spec in I as [-> (f & v & salt & rates & t & pa & wl & p & -> & Acc & E & O)].
+    apply vote_accepted_iff in Acc as (_ & _ & (p' & E' & Pd & Hh) & -> & ->).
+    rewrite E in E'. inversion E'; subst p'.
+    destruct (L _ _ E) as [B (hk & f' & hex & Nk & Sb)].
+    exists h, f, v, salt, rates, t, hk, f', hex.
+    rewrite <- Hh, <- O. repeat split; auto.
+    unfold state_before. rewrite A, firstn_app, Nat.sub_diag, firstn_all. simpl. rewrite app_nil_r.
+    rewrite <- S, <- Sb. exact Pd.
+  - apply (IH (pre ++ [(h, m)]) (snd (step H (length pre) s h m))).
+    + rewrite <- app_assoc. exact A.
+    + rewrite final_app, <- S. simpl. reflexivity.
+    + rewrite app_length. simpl. rewrite Nat.add_1_r. apply linked_step; assumption.
+    + rewrite app_length. simpl. rewrite Nat.add_1_r. exact I.
+Qed.
+
+(** an accepted vote is backed by an earlier Prevote message of the same validator whose hash is
+    the hash of the revealed (salt, exact rate string, validator) and whose height lies one vote
+    period (current VotePeriod) before the vote's height *)
+Lemma vote_backed_by_prevote H s0 all j o :
+  (forall v, prevotes s0 v = None) ->
+  In (j, o) (consumed H 0 s0 all) -> backed H s0 all j o.
+Proof.
+  intros E I. apply (backed_aux H s0 all all [] s0); auto.
+  intros v p C. rewrite E in C. discriminate.
+Qed.
+
+Lemma no_reuse H s0 all :
+  (forall v, prevotes s0 v = None) -> NoDup (map snd (consumed H 0 s0 all)).
+Proof.
+  intro E. apply consumed_origins_nodup. split; intros v; intros; rewrite E in *; discriminate.
+Qed.
+
+(** every accepted vote is in the log (so the two lemmas above speak about all of them) *)
+Lemma accepted_vote_logged H evs : forall n s k h f v salt rates tuples parses wl,
+  nth_error evs k = Some (h, Vote f v salt rates tuples parses wl) ->
+  accepted (fst (step H (n + k) (final H n s (firstn k evs)) h (Vote f v salt rates tuples parses wl))) = true ->
+  exists o, In (n + k, o) (consumed H n s evs).
+Proof.
+  induction evs as [|[h0 m0] r IH]; intros n s k h f v salt rates t pa wl N A.
+  - destruct k; discriminate.
+  - destruct k as [|k]; simpl in N.
+    + inversion N; subst. simpl in A. rewrite Nat.add_0_r in *.
+      pose proof A as A'. apply vote_accepted_iff in A' as (_ & _ & (p & E & _) & _).
+      exists (p_origin p). simpl consumed. apply in_or_app. left.
+      unfold consume_at. rewrite A, E. left. reflexivity.
+    + simpl in A. replace (n + S k) with (S n + k) in * by lia.
+      destruct (IH _ _ _ _ _ _ _ _ _ _ _ N A) as [o I].
+      exists o. simpl. apply in_or_app. right. exact I.
+Qed.
